@@ -119,6 +119,10 @@ def run(ctx, replay=None):
         return
     distinct = set()
     kinds = {}
+    panicked = [c for c in cases if c.get("panic")]
+    for c in panicked[:3]:
+        ctx.classify("push-panic", "C04 oracle: building and sending this frame panicked inside the frame builder", c)
+    cases = [c for c in cases if not c.get("panic")]
     for c in cases:
         distinct.add(json.dumps([c["cap"], c["prog"]], sort_keys=True))
         for r in c["results"]:
